@@ -257,6 +257,13 @@ Section ResumeProofs.
     apply filter_In in H. destruct H as [H1 H2]. injection E as E1 E2. exists h. repeat split; assumption.
   Qed.
 
+  Lemma invoked_only_selected : forall regs ms i ix oc,
+    In (ix, oc) (ob_invoked (snd (step regs ms i))) -> In ix (ob_selected (snd (step regs ms i))).
+  Proof.
+    intros regs ms i ix oc H. destruct (step_obs regs ms i) as [_ [_ [Es [Einv _]]]]. rewrite Einv in H. rewrite Es.
+    apply invoked_in_sel in H. destruct H as [h [Hsel [Hix _]]]. apply in_map_iff. exists h. split; assumption.
+  Qed.
+
   Lemma succeeded_invoked : forall ix (o : rs_obs), rs_succeeded ix o = true -> exists oc, In (ix, oc) (ob_invoked o).
   Proof.
     intros ix o H. unfold rs_succeeded in H. apply existsb_exists in H. destruct H as [[ix' oc] [Hin H]].
